@@ -64,6 +64,8 @@ var _ func(string) [][]string = i_lits[string]
 var _ func(int) []int = i_slice_second
 var _ func(int, int) []int = i_slice_third
 var _ func(string) []string = i_slice_call
+var _ func(frt.Tuple3[int, string, bool]) bool = i_third[int, string, bool]
+var _ func(frt.Tuple2[int, string], frt.Tuple2[bool, float64]) frt.Tuple2[int, float64] = i_ends[int, string, bool, float64]
 
 func Harness_C02_generic_uses() {
 	n := verifInt("n")
